@@ -476,6 +476,8 @@ def judge(sc, env, kind, fault, state, outcome, res, hits, ref):
     six = st == 6
     if six and mt in ("bitflip", "garbage", "truncate"):
         return      # the corruption may have hit the data as well: continuation cannot be judged
+    if six and mut.get("type") == "status" and not mut.get("keep_data"):
+        return      # "partial transfer" that transfers nothing: continuing and giving up are both defensible
     if six and kind in CONTINUE_6:
         # 6 is success-and-continue: the transfer must go on (what the device answers next decides the end result)
         if not truthy_any and not state.get("after"):
